@@ -47,7 +47,8 @@ XS = 'http://www.w3.org/2001/XMLSchema'
 XSI = 'http://www.w3.org/2001/XMLSchema-instance'
 MODES = ('all', 'none', 'local', 'remote', 'sandbox')
 MAIN_KINDS = ('path', 'file_url', 'text', 'open_file', 'remote_url')
-MECHS = ('include', 'redefine', 'override', 'import', 'locations', 'mapper_dict', 'mapper_call', 'hint')
+MECHS = ('include', 'redefine', 'override', 'import', 'locations', 'mapper_dict', 'mapper_call', 'hint_child', 'hint_demand', 'hint_pkg')
+IMP_MECHS = ('import', 'locations', 'hint_child', 'hint_demand', 'hint_pkg')
 REMOTE_BASE = 'http://vk.example/base/sand/'
 
 
@@ -192,7 +193,11 @@ def main_text(mech, loc):
         body = '<xs:include schemaLocation="urn:alias:target"/>'
     else:
         body = ''
-    return xsd('root', 'urn:main', body)
+    # the root admits elements of other namespaces laxly: hinted namespaces are loaded when such a child is met
+    return (f'<xs:schema xmlns:xs="{XS}" targetNamespace="urn:main" elementFormDefault="qualified">{body}'
+            f'<xs:element name="root"><xs:complexType mixed="true"><xs:sequence>'
+            f'<xs:any namespace="##other" processContents="lax" minOccurs="0" maxOccurs="unbounded"/>'
+            f'</xs:sequence></xs:complexType></xs:element></xs:schema>')
 
 
 def esc(s):
@@ -201,7 +206,7 @@ def esc(s):
 
 def run_cell(res, xmlschema, fx, mode, main_kind, mech, cls, spell_name, loc):
     from xmlschema.exceptions import XMLResourceBlocked
-    flavour = 'imp' if mech in ('import', 'locations', 'hint') else 'inc'
+    flavour = 'imp' if mech in IMP_MECHS else 'inc'
     version_cls = xmlschema.XMLSchema11 if mech == 'override' else xmlschema.XMLSchema10
     opener = RecordingOpener(fx)
     text = main_text(mech, esc(loc))
@@ -209,7 +214,7 @@ def run_cell(res, xmlschema, fx, mode, main_kind, mech, cls, spell_name, loc):
     with open(fx.main_path, 'w') as f:
         f.write(text)
     kwargs = {'allow': mode, 'opener': opener, 'validation': 'lax'}
-    if mech == 'locations':
+    if mech in ('locations', 'hint_demand'):
         kwargs['locations'] = [('urn:imp', loc)]
     if mech == 'mapper_dict':
         kwargs['uri_mapper'] = {'urn:alias:target': loc}
@@ -233,15 +238,33 @@ def run_cell(res, xmlschema, fx, mode, main_kind, mech, cls, spell_name, loc):
     outcome = 'built'
     markers = set()
     schema = None
+    child = 'm_' + cls
+    doc_path = os.path.join(fx.sand, 'doc.xml')
+    if mech == 'hint_pkg':
+        with open(doc_path, 'w') as f:
+            f.write(f'<root xmlns="urn:main" xmlns:xsi="{XSI}" xsi:schemaLocation="urn:imp {esc(loc)}">'
+                    f'<i:{child} xmlns:i="urn:imp">v</i:{child}></root>')
     with audit.window() as events, warnings.catch_warnings():
         warnings.simplefilter('ignore')
         try:
             schema = version_cls(source, **kwargs)
-            if mech == 'hint':
-                inst = (f'<root xmlns="urn:main" xmlns:i="urn:imp" xmlns:xsi="{XSI}" '
-                        f'xsi:schemaLocation="urn:imp {esc(loc)}">x</root>')
+            if mech == 'hint_child':
+                # a hint on a nested element is used for loading the namespace dynamically
+                inst = (f'<root xmlns="urn:main" xmlns:xsi="{XSI}"><i:{child} xmlns:i="urn:imp" '
+                        f'xsi:schemaLocation="urn:imp {esc(loc)}">v</i:{child}></root>')
                 r = xmlschema.XMLResource(inst, base_url=fx.sand, allow=mode, opener=opener)
                 list(schema.iter_errors(r, use_location_hints=True))
+            elif mech == 'hint_demand':
+                # the namespace is known only through the `locations` argument (no xs:import): it is tried at build
+                # time and, if that failed, again on demand when the wildcard meets a child of that namespace
+                inst = f'<root xmlns="urn:main"><i:{child} xmlns:i="urn:imp">v</i:{child}></root>'
+                r = xmlschema.XMLResource(inst, base_url=fx.sand, allow=mode, opener=opener)
+                list(schema.iter_errors(r))
+            elif mech == 'hint_pkg':
+                # the package-level function: document and schema by path, hints on the document root
+                list(xmlschema.iter_errors(doc_path, schema=source if main_kind != 'open_file' else fx.main_path,
+                                           cls=version_cls, allow=mode, opener=opener, use_location_hints=True,
+                                           **({'base_url': kwargs['base_url']} if 'base_url' in kwargs else {})))
         except XMLResourceBlocked:
             outcome = 'blocked'
         except xmlschema.XMLSchemaException as e:
@@ -260,6 +283,9 @@ def run_cell(res, xmlschema, fx, mode, main_kind, mech, cls, spell_name, loc):
         c = fx.files.get(p)
         if c:
             touched.add(c)
+        elif p == os.path.realpath(doc_path):
+            if mode in ('none', 'remote'):
+                touched.add('unexpected:document-of-the-call')
         elif p.startswith(fx.root) and os.path.realpath(fx.main_path) != p and os.path.isfile(p):
             touched.add('unexpected:' + os.path.relpath(p, fx.root))
     for url in opener.asked:
@@ -278,11 +304,16 @@ def run_shard(spec, res):
     mode, main_kind = spec['mode'], spec['main_kind']
     for mech in MECHS:
         for cls in TARGET_CLASSES:
-            flavour = 'imp' if mech in ('import', 'locations', 'hint') else 'inc'
+            flavour = 'imp' if mech in IMP_MECHS else 'inc'
             for spell_name, loc in fx.spellings(cls, flavour):
                 cell = {'layout': spec['layout'], 'mode': mode, 'main_kind': main_kind, 'mech': mech, 'target': cls,
                         'spelling': spell_name, 'location': loc}
                 ok = allowed(mode, cls, main_kind)
+                if mech == 'hint_pkg' and cls.startswith('remote_') and ok:
+                    # fetch_schema_locations() does not take the stub opener: an allowed remote hint would go to the
+                    # network. Remote hints are exercised through this route only where the mode denies them.
+                    res.count('skip:hint_pkg:allowed_remote_target_needs_network')
+                    continue
                 res.case(env.h8((spec['layout'], mode, main_kind, mech, cls, spell_name)) if not ok else None)
                 res.count('cells')
                 try:
@@ -309,8 +340,9 @@ def run_shard(spec, res):
                     continue
                 if not ok:
                     res.count('denied_target:not_opened')
-                elif cls in touched:
+                elif cls in touched or ('remote_' + cls[7:] if cls.startswith('remote_') else cls) in touched:
                     res.count('allowed_target:opened')
+                    res.count('allowed_target:opened:' + mech)
                 else:
                     res.count('allowed_target:not_opened:' + spell_name)
                 if len(res.samples) < 2:
@@ -324,6 +356,9 @@ def finalize(res, tier):
         reasons.append('no allowed target was ever opened: the audit monitor saw nothing')
     if not c.get('denied_target:not_opened'):
         reasons.append('no denied target was exercised')
+    for mech in MECHS:
+        if not c.get('allowed_target:opened:' + mech):
+            reasons.append(f'mechanism {mech} never opened an allowed target: its cells decide nothing')
     if not c.get('outcome:blocked'):
         reasons.append('no blocked outcome observed')
     return {'inconclusive': reasons}
@@ -334,7 +369,7 @@ def replay(case):
     from vk.result import Result
     res = Result()
     fx = Fixture(case['layout'])
-    flavour = 'imp' if case['mech'] in ('import', 'locations', 'hint') else 'inc'
+    flavour = 'imp' if case['mech'] in IMP_MECHS else 'inc'
     loc = dict(fx.spellings(case['target'], flavour))[case['spelling']]
     outcome, markers, touched, sockets, main_opened = run_cell(res, xmlschema, fx, case['mode'], case['main_kind'], case['mech'],
                                                                case['target'], case['spelling'], loc)
